@@ -461,8 +461,11 @@ class World:
             # what a new process would find: a provider object with no volatile engine state
             p.disconnect()
             p._cursor = p._latest_cursor
-            p._root_path = None
-            p._root_oid = None
+            if not self.cfg.get("same_process"):
+                # (cfg same_process: the application stops the engine and builds a new one around the SAME provider objects, which
+                # still know their root: the new event managers then validate the root - and read storage - in their constructor)
+                p._root_path = None
+                p._root_oid = None
             p.sync_state = None
 
     def down(self, graceful=True):
